@@ -27,6 +27,7 @@ type ReqCase struct {
 	Cancelled  bool                `json:"cancelled"`       // the request context is already cancelled
 	Chunked    bool                `json:"chunked"`         // the body arrives with unknown length (Transfer-Encoding: chunked): ContentLength -1, as a server sees it
 	Reads      *ReadPlan           `json:"reads,omitempty"` // how the body arrives: one behaviour of Stream.tla's source
+	CredPrefix string              `json:"credPrefix,omitempty"` // spelling of this case's valid credentials (see caseCtx)
 }
 
 // countingWriter observes how a response is written.
@@ -91,7 +92,7 @@ func Serve(h http.Handler, rec *Recorder, c ReqCase) {
 			r.Header.Add(k, v)
 		}
 	}
-	ctx := context.WithValue(context.Background(), keyCase, &caseCtx{id: c.ID, script: c.Script})
+	ctx := context.WithValue(context.Background(), keyCase, &caseCtx{id: c.ID, script: c.Script, credPrefix: c.CredPrefix})
 	if c.Cancelled {
 		cctx, cancel := context.WithCancel(ctx)
 		cancel()
